@@ -157,3 +157,7 @@ impl ZXMemory {
         (page, offset)
     }
 }
+
+#[cfg(kani)]
+#[path = "/verif/hooks/core/memory.rs"]
+mod verif_hooks;
